@@ -265,14 +265,16 @@ func connectSetRequestTimeout(ctx context.Context, header http.Header) {
 	header.Del(connectHeaderTimeout)
 	if deadline, ok := ctx.Deadline(); ok {
 		millis := int64(time.Until(deadline) / time.Millisecond)
-		// Less than a millisecond left is sent as 0: sending nothing would
-		// tell the server that there's no deadline at all.
-		if millis >= 0 {
-			encoded := strconv.FormatInt(millis, 10 /* base */)
-			if len(encoded) <= 10 {
-				header[connectHeaderTimeout] = []string{encoded}
-			} // else effectively unbounded
+		// Less than a millisecond left, or a deadline that has already passed, is
+		// sent as 0: sending nothing would tell the server that there's no
+		// deadline at all.
+		if millis < 0 {
+			millis = 0
 		}
+		encoded := strconv.FormatInt(millis, 10 /* base */)
+		if len(encoded) <= 10 {
+			header[connectHeaderTimeout] = []string{encoded}
+		} // else effectively unbounded
 	}
 }
 
